@@ -238,6 +238,7 @@ fn valid_strong_tag(t: &[u8]) -> bool {
 }
 
 pub fn c18(em: &mut Emit, thorough: bool, _seed: u64) {
+    file_outside_runtime(em);
     let rt = rt();
     let tmp = tempfile::tempdir().unwrap();
     let sizes: [u64; 7] = [0, 1, 65535, 65536, 65537, 131072, 200001];
@@ -762,6 +763,90 @@ impl Entity for SharedFile {
 /// `serve` over real `ChunkedReadFile` entities with Range headers (also with the file truncated
 /// after the response head => an aborted body): the response head against the model, the body
 /// against the file. Part of C18's suite and, for the bytes-versus-headers clauses, of C02's.
+/// C18 / C13 outside any tokio runtime: the file entity's stream, and a body `serve` makes over a
+/// file, polled from a plain thread (a synchronous adapter, another executor, a helper thread a
+/// stream was handed to). Exact bytes, the truncation error, no panic — as inside a runtime.
+pub fn file_outside_runtime(em: &mut Emit) {
+    use http_body::Body as _;
+    let tmp = tempfile::tempdir().unwrap();
+    let size = 200_001u64;
+    let path = tmp.path().join("plain-thread");
+    for (a, b, truncate_to) in [(0u64, size, None), (65_530, 131_080, None), (7, 7, None), (0, size, Some(70_000u64)), (100_000, 150_000, Some(0))] {
+        write_file(&path, size);
+        let crf = Crf::new(std::fs::File::open(&path).unwrap(), HeaderMap::new()).unwrap();
+        let path2 = path.clone();
+        // direct use of the stream, and through `serve`
+        for through_serve in [false, true] {
+            write_file(&path, size);
+            let crf = if through_serve { Crf::new(std::fs::File::open(&path).unwrap(), HeaderMap::new()).unwrap() } else { Crf::new(std::fs::File::open(&path).unwrap(), HeaderMap::new()).unwrap() };
+            let path3 = path2.clone();
+            let r = std::thread::spawn(move || {
+                std::panic::catch_unwind(std::panic::AssertUnwindSafe(|| {
+                    let waker = noop_waker();
+                    let mut cx = Context::from_waker(&waker);
+                    let mut got: Vec<u8> = vec![];
+                    let mut end = "no terminal event in 16 polls";
+                    if through_serve {
+                        let req = http::Request::get("/").header("range", format!("bytes={}-{}", a, b.max(a + 1) - 1)).body(()).unwrap();
+                        let resp = http_serve::serve(crf, &req);
+                        let mut body = Box::pin(resp.into_body());
+                        for k in 0..16 {
+                            if k == 1 {
+                                if let Some(t) = truncate_to {
+                                    std::fs::OpenOptions::new().write(true).open(&path3).unwrap().set_len(t).unwrap();
+                                }
+                            }
+                            match body.as_mut().poll_frame(&mut cx) {
+                                Poll::Ready(Some(Ok(f))) => got.extend_from_slice(&f.into_data().map(|d| d.to_vec()).unwrap_or_default()),
+                                Poll::Ready(Some(Err(_))) => { end = "error"; break; }
+                                Poll::Ready(None) => { end = "end"; break; }
+                                Poll::Pending => {}
+                            }
+                        }
+                    } else {
+                        let mut s = crf.get_range(a..b);
+                        for k in 0..16 {
+                            if k == 1 {
+                                if let Some(t) = truncate_to {
+                                    std::fs::OpenOptions::new().write(true).open(&path3).unwrap().set_len(t).unwrap();
+                                }
+                            }
+                            match s.as_mut().poll_next(&mut cx) {
+                                Poll::Ready(Some(Ok(d))) => got.extend_from_slice(&d),
+                                Poll::Ready(Some(Err(_))) => { end = "error"; break; }
+                                Poll::Ready(None) => { end = "end"; break; }
+                                Poll::Pending => {}
+                            }
+                        }
+                        std::mem::forget(s);
+                    }
+                    (got, end)
+                }))
+            })
+            .join();
+            let (ok, why) = match r {
+                Ok(Ok((got, end))) => {
+                    let (ea, eb) = if through_serve && a == b { (a, a + 1) } else { (a, b) };
+                    match truncate_to {
+                        None if end == "end" && got == content(ea..eb) => (true, String::new()),
+                        None => (false, format!("{} after {} of {} bytes (or other bytes than the file's)", end, got.len(), eb - ea)),
+                        Some(_) if end == "error" && got == content(ea..ea + got.len() as u64) => (true, String::new()),
+                        Some(_) if end == "end" && got == content(ea..eb) => (true, String::new()),
+                        Some(t) => (false, format!("file truncated to {}: {} after {} bytes", t, end, got.len())),
+                    }
+                }
+                _ => (false, "panic".to_string()),
+            };
+            em.pred_only(
+                &format!("file of {} bytes, range {}..{}, {} polled on a plain thread with no tokio runtime entered{}", size, a, b, if through_serve { "body from serve" } else { "get_range stream" }, truncate_to.map_or(String::new(), |t| format!(", truncated to {} after the first poll", t))),
+                &pred(ok, || why.clone()),
+                "no-runtime",
+            );
+        }
+        drop(crf);
+    }
+}
+
 /// C20 over the crate's own file entity: a body served from a `ChunkedReadFile`, polled on after
 /// its clean end and after a read error (the file truncated under it). The file's stream is
 /// built on `stream::unfold`, which panics when polled after its end — the body must not pass a
